@@ -670,6 +670,51 @@ impl Vm {
   { SeqObj { p: 0 } }
 }
 
+// ---- closures (C02): op_closure builds the capture table of a new closure -----------------------------------------------
+pub uninterp spec fn o_closure(o: ObjectRef) -> ClosureRef;
+pub uninterp spec fn o_fun(o: ObjectRef) -> FunRef;
+pub uninterp spec fn closure_fun(c: ClosureRef) -> FunRef;
+pub uninterp spec fn closure_captures(c: ClosureRef) -> CapturesRef;
+pub uninterp spec fn from_closure(c: ClosureRef) -> Value;
+pub uninterp spec fn fun_capture_count(f: FunRef) -> usize;
+/// A-enc: the two operand bytes decode to the CaptureIndex the encoder wrote (transmute of the u16; bytecode unit: verif_capture_bytes)
+pub uninterp spec fn decode_capture(x: u16) -> CaptureIndex;
+impl IntoValue for ClosureRef {
+  open spec fn into_value_spec(self) -> Value { from_closure(self) }
+  #[verifier::external_body] fn into_value(self) -> (r: Value) { Value { bits: 0 } }
+}
+impl ObjectRef {
+  #[verifier::external_body] pub fn to_fun(&self) -> (r: FunRef) requires o_kind(*self) == ObjectKind::Fun ensures r == o_fun(*self) { FunRef { p: 0 } }
+  /// ObjRef<LyBox> of a box object
+  #[verifier::external_body] pub fn to_box(&self) -> (r: BoxObj) requires o_kind(*self) == ObjectKind::LyBox ensures box_obj(r) == *self { BoxObj { p: 0 } }
+}
+impl FunRef { #[verifier::external_body] pub fn capture_count(&self) -> (r: usize) ensures r == fun_capture_count(*self) { 0 } }
+impl Vm {
+  /// R6: `mem::transmute(self.read_short())` — read the two operand bytes and reinterpret them as a CaptureIndex
+  #[verifier::external_body]
+  pub fn read_capture_index(&mut self) -> (r: CaptureIndex)
+    ensures r == decode_capture(code_u16(old(self).ip@)), final(self).ip@ == old(self).ip@ + 2, aux_same(old(self), final(self)),
+            final(self).fiber == old(self).fiber, final(self).raised == old(self).raised, final(self).constants == old(self).constants, final(self).builtin == old(self).builtin
+  { CaptureIndex::Local(0) }
+  /// `ly_box.value` read through an ObjRef<LyBox>
+  #[verifier::external_body] pub fn verif_box_value(&self, b: BoxObj) -> (r: Value) ensures r == self.boxes@[box_obj(b)] { Value { bits: 0 } }
+  /// Captures::get_capture: the i-th capture box of a capture table
+  #[verifier::external_body]
+  pub fn capture_box_get(&self, c: CapturesRef, i: usize) -> (r: BoxObj) requires (i as int) < captures_len(c) ensures box_obj(r) == capture_box(c, i as int) { BoxObj { p: 0 } }
+  /// Captures::new(self.manage(&*boxes)): a capture table holding exactly these box pointers, in order
+  #[verifier::external_body]
+  pub fn manage_captures(&mut self, boxes: &Vec<BoxObj>) -> (r: CapturesRef)
+    ensures captures_len(r) == boxes@.len(), forall|j: int| 0 <= j < boxes@.len() ==> capture_box(r, j) == box_obj(#[trigger] boxes@[j]),
+            final(self).fiber == old(self).fiber, final(self).ip == old(self).ip, final(self).raised == old(self).raised, final(self).builtin == old(self).builtin, aux_same(old(self), final(self))
+  { CapturesRef { p: 0 } }
+  /// manage_obj(Closure::new(fun, captures))
+  #[verifier::external_body]
+  pub fn manage_closure(&mut self, fun: FunRef, captures: CapturesRef) -> (r: ClosureRef)
+    ensures closure_fun(r) == fun, closure_captures(r) == captures,
+            final(self).fiber == old(self).fiber, final(self).ip == old(self).ip, final(self).raised == old(self).raised, final(self).builtin == old(self).builtin, aux_same(old(self), final(self))
+  { ClosureRef { p: 0 } }
+}
+
 // R12: if_let_obj! / to_obj_kind! copied from laythe_core/src/macros.rs with the `$crate::` prefixes and `use` lines removed
 macro_rules! to_obj_kind {
   ($o:expr, Channel) => {
